@@ -1,14 +1,25 @@
 """C03  HTML minification preserves the parsed document.
 
-MC : HtmlMachine (design model of the token loop of html/html.go, checked against the abstract
-     relation HtmlDom.HtmlEq with a model tree builder) - exhaustive over conforming token
-     sequences; its behaviours are also the generated documents.
+MC : HtmlMachine = generator of conforming token sequences (content models of the standard)
+     + transcription of the token loop of html/html.go + tree construction of the standard for
+     the vocabulary.  TLC checks exhaustively within the bound that a conforming explicit document
+     builds to itself and that the design refines the abstract relation HtmlDom.HtmlEq for every
+     option set (D => A); every complete state is emitted as a document (GEN) together with the
+     design's predicted output.
+     HtmlAttr = generator of attribute values over the alphabet of quotes, = < > ` space & ; and
+     character references + transcription of reference replacement and quote selection, checked
+     against the standard's attribute-value decoding.
 RUN: harness/cmd/c03 calls the real (*html.Minifier).Minify (only text/html registered) and
      parses input and output with golang.org/x/net/html (independent tokenizer + tree builder).
 TV : C03Trace evaluates HtmlDom.HtmlEq clause by clause on every recorded call.
+Verdicts come only from TV of real executions; a difference between the design's prediction and
+the real output is reported as DRIFT in the evidence.
 """
 import json
 import os
+import re
+
+import time
 
 import vlib
 
@@ -17,11 +28,11 @@ OPT_NAMES = ['KeepComments', 'KeepSpecialComments', 'KeepDefaultAttrVals', 'Keep
              'KeepQuotes', 'KeepWhitespace']
 # 8 option sets covering every pair of option values (orthogonal array OA(8, 2^7, strength 2))
 PAIRWISE8 = [0b0000000, 0b1010101, 0b0110011, 0b1100110, 0b0001111, 0b1011010, 0b0111100, 0b1101001]
-TMPL = {0: None, 1: ('{{', '}}'), 2: ('<%', '%>'), 3: ('<?', '?>')}
+KDOC, KET, KWS = 8, 16, 64
 
 
 def b2l(s):
-    return list(s if isinstance(s, bytes) else s.encode('utf-8'))
+    return list(s if isinstance(s, (bytes, bytearray)) else s.encode('utf-8'))
 
 
 def ident(c):
@@ -29,10 +40,254 @@ def ident(c):
     return dict(src=bytes(c['src']).decode('latin1'), opts=c['opts'], frag=bool(c['frag']), tmpl=c['tmpl'])
 
 
-def mk(src, opts=0, frag=False, tmpl=0, origin=''):
-    return dict(src=b2l(src), opts=opts, frag=frag, tmpl=tmpl, origin=origin)
+def mk(src, opts=0, frag=False, tmpl=0, origin='', pred=None):
+    return dict(src=b2l(src), opts=opts, frag=frag, tmpl=tmpl, origin=origin, pred=pred)
 
 
+def show(c):
+    return bytes(c['src']).decode('utf-8', 'replace')
+
+
+def optstr(o):
+    return '+'.join(n for i, n in enumerate(OPT_NAMES) if o >> i & 1) or 'defaults'
+
+
+# ---------------------------------------------------------------------------------------------
+# Inputs of the repository's own tests that are outside the property's domain ("all conforming HTML
+# documents and fragments"): listed by exact text with the reason; they are still executed (totality)
+# but their verdict is not part of C03.
+NONCONFORMING_TEST_INPUTS = {
+    '<span method=GET></span>': 'method is not an attribute of span (3.2.6)',
+    '<span selected="selected"></span>': 'selected is not an attribute of span',
+    '<span Selected="selected"></span>': 'selected is not an attribute of span',
+    '<select>text<option>foo</option>text<optgroup>text<option>bar</option>text</optgroup>text</select>':
+        'text directly inside select/optgroup violates their content model (4.10.7, 4.10.9)',
+    '<iframe><html> <p> x </p> </html></iframe>': 'iframe content model is "nothing" (4.8.5)',
+    '<meta e t n content=ful><a b': 'unterminated start tag (eof-in-tag parse error)',
+    '<select><option>Default</option>{{range $i, $lang := .Languages}}<option>{{$lang}}</option>{{end}}</select>':
+        'template action between options: to the HTML parser this is text inside select',
+}
+
+
+# test inputs that are witnesses of known findings (pinned in known/C03.ndjson, not crossed with option sets)
+KNOWN_TEST_INPUTS = {
+    '<script></script>': 'X7',
+    '<style amp-boilerplate>body{-webkit-animation:-amp-start 8s    steps(1,end) 0s 1 normal both;}</style>': 'X9',
+}
+
+
+# ---------------------------------------------------------------------------------------------
+def render_tokens(toks):
+    out = bytearray()
+    for k, t, h, x in toks:
+        if k == 'S':
+            out += b'<' + t.encode()
+            if h:
+                out += {'a': b' href=x', 'img': b' src=x', 'script': b' src=x', 'colgroup': b' span=2'}.get(t, b' class=x')
+            out += b'>'
+        elif k == 'E':
+            out += b'</' + t.encode() + b'>'
+        elif k == 'T':
+            out += bytes(x)
+        else:
+            out += b'<!--' + bytes(x) + b'-->'
+    return bytes(out)
+
+
+GEN_RE = re.compile(r'^<<"GEN", (".*")>>$', re.M)
+
+
+def gen_lines(out):
+    docs = []
+    for m in GEN_RE.finditer(out):
+        docs.append(json.loads(json.loads(m.group(1))))
+    return docs
+
+
+def tree_docs(ctx):
+    """(MC)+(GEN): exhaustive runs of HtmlMachine; returns list of (src bytes, frag, {optproj: predicted bytes})"""
+    quick = ctx.quick()
+    runs = [('quick', False), ('docquick', True)] if quick else [('wide', False), ('deep', False), ('doc', True)]
+    docs = []
+    per = {}
+    for name, docmode in runs:
+        r = vlib.tlc_mc(ctx, 'HtmlMachine', 'HtmlMachine_%s.cfg' % name, workers=8, heap='8g' if not quick else '4g',
+                        timeout=3000)
+        got = gen_lines(r['out'])
+        per[name] = dict(states=r['distinct'], documents=len(got), wall_s=round(r['wall'], 1))
+        vlib.log('MC HtmlMachine_%s: %d states, %d documents, %.1fs' % (name, r['distinct'], len(got), r['wall']))
+        for d in got:
+            pred = {}
+            for o in d['o']:
+                ket, kws, kdoc = o['f']
+                pred[ket * KET | kws * KWS | kdoc * KDOC] = render_tokens(o['o'])
+            docs.append((render_tokens(d['t']), not docmode, pred, name))
+    # random walks far beyond the exhaustive bound (design invariants are checked along the walks too)
+    nsim = 150 if quick else 3000
+    rs = vlib.tlc(ctx, 'HtmlMachine', 'HtmlMachine_sim.cfg', workers=1, simulate='num=%d' % nsim, depth=40,
+                  seed=ctx.seed, timeout=1500, heap='3g')
+    if rs['errors'] or rs['invariant_violations']:
+        raise vlib.Infra('design model fails on a simulated walk:\n' + rs['out'][-3000:])
+    sims = gen_lines(rs['out'])
+    per['sim'] = dict(walks=nsim, documents=len(sims), wall_s=round(rs['wall'], 1))
+    vlib.log('SIM: %d documents, %.1fs' % (len(sims), rs['wall']))
+    for d in sims:
+        docs.append((render_tokens(d['t']), True, {}, 'sim'))
+    ctx.coverage['generator'] = per
+    return docs
+
+
+DOCTYPE = b'<!doctype html>'   # a conforming document has one; without it the parser is in quirks mode
+
+
+def tree_cases(ctx, docs):
+    quick = ctx.quick()
+    cases = []
+    seen = set()
+
+    def add(src, opts, frag, origin, pred):
+        if not frag:
+            src = DOCTYPE + src
+            pred = dict((k, DOCTYPE + v) for k, v in pred.items())
+        k = (src, opts, frag)
+        if k in seen:
+            return
+        seen.add(k)
+        cases.append(mk(src, opts, frag, 0, origin, pred.get(opts & (KET | KWS | KDOC)) if opts & 3 == 0 else None))
+
+    budget_deep = 40000
+    ndeep = sum(1 for d in docs if d[3] == 'deep')
+    for i, (src, frag, pred, name) in enumerate(docs):
+        if name == 'deep' and ndeep > budget_deep and ctx.rnd.random() > budget_deep / ndeep:
+            continue
+        if quick or name in ('deep', 'sim'):
+            # defaults + one seeded member of the pairwise-covering family (+ the document reading of a fragment)
+            o2 = PAIRWISE8[1 + (i + ctx.seed) % 7]
+            add(src, 0, frag, 'gen:' + name, pred)
+            add(src, o2, frag, 'gen:' + name, pred)
+            if frag and (i + ctx.seed) % 3 == 0:
+                add(src, 0, False, 'gen:' + name + ':asdoc', pred)
+        else:
+            for o in PAIRWISE8:
+                add(src, o, frag, 'gen:' + name, pred)
+            if frag:
+                add(src, 0, False, 'gen:' + name + ':asdoc', pred)
+                add(src, PAIRWISE8[1 + i % 7], False, 'gen:' + name + ':asdoc', pred)
+    return cases
+
+
+# ---------------------------------------------------------------------------------------------
+def repo_test_cases(ctx):
+    """inputs of the repository's own table tests, under the configuration of the test function and
+    under the option family"""
+    rows = vlib.test_inputs(ctx, 'html')
+    conf = {'TestHTML': (0, 0, 0), 'TestHTMLCSSJS': (0, 0, 0), 'TestHTMLKeepEndTags': (16, 0, 0),
+            'TestHTMLKeepSpecialComments': (2, 0, 0), 'TestHTMLKeepWhitespace': (64, 0, 0),
+            'TestHTMLKeepQuotes': (32, 0, 0), 'TestHTMLURL': (0, 0, 1), 'TestHTMLGoTemplates': (0, 1, 0),
+            'TestHTMLPHPTemplates': (0, 3, 0), 'TestSpecialTagClosing': (0, 0, 0)}
+    out, skipped = [], []
+    family = PAIRWISE8 if ctx.quick() else list(range(128))
+    seen = set()
+    for r in rows:
+        if r['file'] != 'html_test.go' or r['func'] not in conf:
+            continue
+        opts, tmpl, col = conf[r['func']]
+        if len(r['strings']) <= col:
+            continue
+        src = r['strings'][col]
+        if src in NONCONFORMING_TEST_INPUTS:
+            skipped.append(src)
+            continue
+        if src in KNOWN_TEST_INPUTS:
+            continue
+        for o in [opts] + family:
+            if (src, o, tmpl) in seen:
+                continue
+            seen.add((src, o, tmpl))
+            out.append(mk(src, o, False, tmpl, origin='test:' + r['func']))
+    return out, skipped
+
+
+TEMPLATE_DOCS = [
+    '<p>{{ .A }} b</p>', '<p>a {{ .A }}</p> <p>{{.B}}</p>', '<a href="{{ .URL }}" class=" x  y ">t</a>',
+    '<div class="a {{ .C }} b" id={{.I}}> x </div>', '<p>a</p>{{ if .X }}<p>b</p>{{ end }}<p>c</p>',
+    '<span> {{ .A }} </span> <span>{{ .B }}</span>', '<pre> {{ .A }}  x</pre>', '<textarea>{{ .A }}</textarea>',
+    '<script>var a = {{ .J }};</script><p>x</p>', '<title> {{ .T }} </title>', '<ul><li>{{ .A }}</li><li> b </li></ul>',
+    '<input value="{{ .V }}" type=text>', '<p>a  {{ .A }}  b</p>', '<b>x</b> {{ .A }} <i>y</i>',
+    '<div {{ .Attrs }}>x</div>', '<p title="a &amp; {{ .A }}">x</p>',
+]
+
+
+def template_cases(ctx):
+    out = []
+    for d in TEMPLATE_DOCS:
+        for tmpl, (a, b) in ((1, ('{{', '}}')), (2, ('<%', '%>')), (3, ('<?', '?>'))):
+            if tmpl != 1 and ('={{' in d or ' {{ .Attrs' in d):
+                continue    # "<%..%>" in tag/unquoted position is markup to an HTML parser: only {{ }} is used there
+            s = d.replace('{{', a).replace('}}', b)
+            for o in (PAIRWISE8 if not ctx.quick() else PAIRWISE8[:4]):
+                out.append(mk(s, o, True, tmpl, origin='template'))
+    return out
+
+
+VAL_RE = re.compile(r'^<<"VAL", "(\[[0-9, ]*\])">>$', re.M)
+NEEDQ = set(b' \t\n\f\r"\'=<>`')
+
+
+def attr_values(ctx):
+    """(MC)+(GEN) of HtmlAttr: exhaustive value set within the length bound + seeded walks beyond it"""
+    quick = ctx.quick()
+    cfg = 'HtmlAttr_len2.cfg' if quick else 'HtmlAttr_len3.cfg'
+    r = vlib.tlc_mc(ctx, 'HtmlAttr', cfg, workers=8, timeout=2400)
+    vals = [bytes(json.loads(m.group(1))) for m in VAL_RE.finditer(r['out'])]
+    if len(vals) != r['distinct']:
+        raise vlib.Infra('HtmlAttr: %d values printed for %d states' % (len(vals), r['distinct']))
+    rs = vlib.tlc(ctx, 'HtmlAttr', 'HtmlAttr_sim.cfg', workers=1, simulate='num=%d' % (300 if quick else 3000), depth=5,
+                  seed=ctx.seed, timeout=1200)
+    if rs['errors'] or rs['invariant_violations']:
+        raise vlib.Infra('attribute design model fails on a simulated walk:\n' + rs['out'][-3000:])
+    sims = [bytes(json.loads(m.group(1))) for m in VAL_RE.finditer(rs['out'])]
+    ctx.coverage['generator']['attr'] = dict(states=r['distinct'], values=len(vals), simulated_values=len(set(sims) - set(vals)),
+                                             wall_s=round(r['wall'] + rs['wall'], 1))
+    vlib.log('MC HtmlAttr: %d values + %d simulated, %.1fs' % (len(vals), len(set(sims) - set(vals)), r['wall'] + rs['wall']))
+    seen = set(vals)
+    extra = []
+    for v in sims:
+        if v not in seen:
+            seen.add(v)
+            extra.append(v)
+    return vals + vlib.sample(extra, 1200 if quick else 12000, ctx.rnd)
+
+
+def attr_cases(ctx, vals):
+    """every value in every conforming source quoting on: an attribute that is only reference-decoded (title),
+    one that is trimmed (class), a URL attribute, an attribute of an unknown element; and as text / RCDATA"""
+    out = []
+    optsets = [0, 32] if ctx.quick() else [0, 32, PAIRWISE8[1], PAIRWISE8[2], PAIRWISE8[6]]
+    for i, v in enumerate(vals):
+        quotings = []
+        if b'"' not in v:
+            quotings.append(b'"' + v + b'"')
+        if b"'" not in v:
+            quotings.append(b"'" + v + b"'")
+        if v and not (set(v) & NEEDQ):
+            quotings.append(v)
+        docs = []
+        for q in quotings:
+            docs += [b'<span title=' + q + b'>x</span>', b'<span class=' + q + b'>x</span>',
+                     b'<a href=' + q + b'>x</a>', b'<my-el data-x=' + q + b'>x</my-el>']
+        if b'<' not in v:
+            docs.append(b'<p>' + v + b'</p>')
+        docs.append(b'<textarea>' + v + b'</textarea>')
+        for j, d in enumerate(docs):
+            for o in (optsets if not ctx.quick() else [optsets[(i + j) % 2]]):
+                out.append(mk(d, o, True, 0, origin='attr'))
+        if b'<' not in v:
+            out.append(mk(DOCTYPE + b'<title>' + v + b'</title>', 0, False, 0, origin='attr'))
+    return out
+
+
+# ---------------------------------------------------------------------------------------------
 def run_cases(ctx, exe, cases, tag):
     cin = ctx.path('run', tag + '-cases.ndjson')
     tout = ctx.path('run', tag + '-trace.ndjson')
@@ -50,40 +305,133 @@ def run_cases(ctx, exe, cases, tag):
 
 
 def validate(ctx, exe, cases, tag):
+    t0 = time.time()
     lines, side = run_cases(ctx, exe, cases, tag)
-    accepted, rejects = vlib.tlc_trace(ctx, 'C03Trace', 'C03Trace.cfg', lines, min_per_shard=100)
+    t1 = time.time()
+    accepted, rejects = vlib.tlc_trace(ctx, 'C03Trace', 'C03Trace.cfg', lines, min_per_shard=400, timeout=2400)
+    if len(cases) > 100:
+        vlib.log('RUN %d cases %.1fs, TV %.1fs' % (len(cases), t1 - t0, time.time() - t1))
     return lines, side, accepted, rejects
 
 
-def repo_test_cases(ctx):
-    """inputs of the repository's own table tests, under the configuration of the test function"""
-    rows = vlib.test_inputs(ctx, 'html')
-    conf = {'TestHTML': (0, 0), 'TestHTMLCSSJS': (0, 0), 'TestHTMLKeepEndTags': (16, 0),
-            'TestHTMLKeepSpecialComments': (2, 0), 'TestHTMLKeepWhitespace': (64, 0), 'TestHTMLKeepQuotes': (32, 0),
-            'TestHTMLURL': (0, 0), 'TestHTMLGoTemplates': (0, 1), 'TestHTMLPHPTemplates': (0, 3),
-            'TestSpecialTagClosing': (0, 0)}
+def pinned_cases():
     out = []
-    for r in rows:
-        if r['file'] != 'html_test.go' or r['func'] not in conf:
-            continue
-        opts, tmpl = conf[r['func']]
-        out.append(mk(r['strings'][0], opts, False, tmpl, origin='test:' + r['func']))
+    for c in vlib.known_cases(PID):
+        out.append(mk(c['src'].encode('latin1'), c['opts'], c['frag'], c['tmpl'], origin='known'))
     return out
 
 
 def run(ctx):
     exe = vlib.build_harness(ctx, 'c03')
-    cases = repo_test_cases(ctx)
+    docs = tree_docs(ctx)
+    cases = tree_cases(ctx, docs)
+    n_tree = len(cases)
+    cases += attr_cases(ctx, attr_values(ctx))
+    n_attr = len(cases) - n_tree
+    tests, skipped = repo_test_cases(ctx)
+    cases += tests
+    cases += template_cases(ctx)
+    cases += pinned_cases()
     lines, side, accepted, rejects = validate(ctx, exe, cases, 'main')
-    for i, why in rejects:
-        c = cases[i]
-        print('REJ', why, repr(bytes(c['src']).decode('utf-8', 'replace')), '->', repr(side[i]), c['opts'], c['tmpl'])
-    print(len(cases), accepted)
-    raise vlib.Infra('dev')
+
+    # DRIFT: design model prediction vs real output (information about the model, never a verdict)
+    drift, compared = [], 0
+    nontrivial = set()
+    for c, m in zip(cases, side):
+        src = bytes(c['src'])
+        if m.encode('utf-8', 'surrogateescape') != src:
+            nontrivial.add((src, c['opts'], c['frag'], c['tmpl']))
+        if c.get('pred') is not None:
+            compared += 1
+            if c['pred'].decode('latin1') != m:
+                if len(drift) < 5:
+                    drift.append(dict(src=show(c), opts=optstr(c['opts']), design=c['pred'].decode('latin1'), code=m))
+    ctx.coverage['design_predictions_compared'] = compared
+    ctx.coverage['design_drift'] = sum(1 for c, m in zip(cases, side) if c.get('pred') is not None and c['pred'].decode('latin1') != m)
+    ctx.coverage['design_drift_samples'] = drift
+
+    # every rejected call is re-run alone (fresh process) and re-validated before it counts
+    if rejects:
+        why = {}
+        for i, w in rejects:
+            why.setdefault(i, []).append(w)
+        bad = sorted(why)
+        if len(bad) > 300:
+            vlib.log('%d rejected lines; re-running the first 300' % len(bad))
+        reproduced = 0
+        for i in bad[:300]:
+            c = cases[i]
+            l2, s2, a2, r2 = validate(ctx, exe, [c], 'rerun%d' % i)
+            if not r2:
+                raise vlib.Infra('rejection of %r did not reproduce in isolation' % show(c))
+            reproduced += 1
+            desc = '%s [%s%s%s] -> %s : clause %s' % (json.dumps(show(c)), optstr(c['opts']), ' fragment' if c['frag'] else '',
+                                                      ' tmpl=%d' % c['tmpl'] if c['tmpl'] else '', json.dumps(s2[0]),
+                                                      '/'.join(sorted(set(w for _, w in r2))))
+            ctx.report(ident(c), desc, replay_obj=dict(origin=c['origin'], out=s2[0]))
+        ctx.coverage['rejections'] = len(bad)
+        ctx.coverage['rejections_reproduced'] = reproduced
+
+    samples = []
+    for j in (0, n_tree // 2, n_tree - 1, n_tree + 3, len(cases) - len(pinned_cases()) - 1):
+        if 0 <= j < len(cases):
+            samples.append(dict(src=show(cases[j]), opts=optstr(cases[j]['opts']), fragment=cases[j]['frag'],
+                                out=side[j], origin=cases[j]['origin']))
+    ctx.coverage.update(dict(
+        traces_validated_against_impl=accepted,
+        evaluations=len(cases),
+        distinct_nontrivial=len(nontrivial),
+        documents_from_model=n_tree,
+        attribute_documents_from_model=n_attr,
+        repo_test_inputs_outside_domain=len(skipped),
+        rule='documents = every complete state of the TLC runs of HtmlMachine (all conforming token sequences within '
+             'the node/depth bound over the vocabulary, see coverage.generator), complete states met on TLC -simulate '
+             'walks, all inputs of html/html_test.go, template-delimiter documents; each crossed with Keep* option sets '
+             '(8 pairwise-covering sets; all 128 for the test inputs in thorough) and read as fragment (body context) '
+             'and as document; a case is (input bytes, options, fragment?, delimiters); non-trivial = the real minifier '
+             'changed the bytes.  Generator exclusions (known findings, pinned in known/C03.ndjson): X1 script/template '
+             'after an element whose end tag is dropped, text after </rt>, comment between </optgroup> and <option>; '
+             'X3 </p> directly before a custom element end tag; X4 white space next to noscript or after </template>; '
+             'X5 attribute-less colgroup that is empty or follows a colgroup; X6 attribute-less body starting with '
+             'meta/link/script/style/template/noscript; X7 empty attribute-less script/style; %d repository test inputs '
+             'that are not conforming HTML (listed in tools/props/c03.py)' % len(skipped),
+        samples=samples,
+        exhaustive=True,
+        exhaustive_bound='all conforming token sequences with <= %s nodes over the vocabulary of HtmlMachine_%s.cfg' %
+                         (('3', 'quick/docquick') if ctx.quick() else ('3 (33 tags) / 4 (20 tags)', 'wide/deep/doc')),
+    ))
+    ctx.assumptions += [
+        'golang.org/x/net/html v0.34.0 (scripting disabled) is the HTML5 tree builder that defines "the parsed document"',
+        'spec/HtmlTables.tla transcribes the standard (rendering section, attribute index, optional tags); TLC evaluates HtmlDom.HtmlEq',
+        'only text/html is registered: embedded CSS/JS/SVG pass through (C11); data: URLs are not compared (C18)',
+        'title text is compared as words (not rendered, not named by the property); doctype is not part of the tree']
 
 
 def replay(ctx, obj):
+    exe = vlib.build_harness(ctx, 'c03')
+    c = obj['case']
+    case = mk(c['src'].encode('latin1'), c['opts'], c['frag'], c['tmpl'])
+    lines, side, accepted, rejects = validate(ctx, exe, [case], 'replay')
+    print('input : %s' % json.dumps(show(case)))
+    print('output: %s' % json.dumps(side[0]))
+    if rejects:
+        print('rejected clauses: %s' % ', '.join(sorted(set(w for _, w in rejects))))
+        print('VIOLATION property=C03 replay=given')
+        return 1
+    print('accepted')
     return 0
 
 
-META = dict(category='model_checking', text='', design_ref='DESIGN.md section 4, C03', note='', technique='')
+META = dict(
+    category='model_checking',
+    text='TLC enumerates all conforming token sequences within the bound (HtmlMachine: content models of the HTML '
+         'standard as enabling conditions), checks that the design model of the minifier token loop refines the '
+         'abstract relation HtmlEq (same element tree, same words per text node, same rendered word separation with '
+         'display types from the standard, same decoded attribute values up to documented removals) and emits the '
+         'documents; the real minifier runs on each under Keep* option sets, input and output are parsed by an '
+         'independent HTML5 parser and TLC evaluates HtmlEq on every recorded call.',
+    design_ref='DESIGN.md section 4, C03',
+    note='Trusted: TLC, golang.org/x/net/html as HTML5 parser, spec/HtmlTables.tla as transcription of the standard. '
+         'Exhaustive within the stated node bound; sampled (TLC -simulate) beyond it.',
+    technique='TLA+ design model + generator, TLC trace validation of the DOM relation',
+)
